@@ -16,6 +16,9 @@ def replay_storm(v, seeds, depth):
     sample = None
     for seed in seeds:
         w = wd.World(seed=seed, opts={'child_dh': ['ecp256'] if seed % 3 == 0 else []})
+        import ikereplay
+        ikereplay.install_observers()
+        w.handler_runs, w.routed, w.exec_count = [], [], {}
         s = probes.Scheduler(w, seed, p_dup=0.1, p_loss=0.05)
         try:
             for step in range(depth):
